@@ -96,7 +96,7 @@ def generateAndSet (c : BlockCoreC σ 32) (r : BlockRng σ) (index : Nat) :
   pure { results := res, index := index, core := core }
 
 def nextU32 (c : BlockCoreC σ 32) (r : BlockRng σ) : Except Panic (U32 × BlockRng σ) := do
-  let r ← if r.index ≥ r.results.size then generateAndSet c r 0 else pure r
+  let r ← (if r.index ≥ r.results.size then generateAndSet c r 0 else pure r)
   let value ← rdC r.results r.index              -- `self.results.as_ref()[self.index]`
   let index ← addC r.index 1                     -- `self.index += 1`
   pure (value, { r with index := index })
@@ -134,7 +134,7 @@ def fillLoop (c : BlockCoreC σ 32) (n : Nat) :
   | 0, _, acc, r => pure (acc, r)
   | fuel + 1, readLen, acc, r =>
     if readLen < n then do
-      let r ← if r.index ≥ r.results.size then generateAndSet c r 0 else pure r
+      let r ← (if r.index ≥ r.results.size then generateAndSet c r 0 else pure r)
       sliceFromC r.results.size r.index          -- `&self.results.as_mut()[self.index..]`
       sliceFromC n readLen                       -- `&mut dest[read_len..]`
       let (consumed, filled, bytes) ←
@@ -157,10 +157,10 @@ variable {σ : Type}
 def nextU32 (c : BlockCoreC σ 64) (r : BlockRng64 σ) : Except Panic (U32 × BlockRng64 σ) := do
   let index ← subC r.index r.halfUsed.toNat      -- `self.index - self.half_used as usize`
   let (r, index) ←
-    if index ≥ r.results.size then do
+    (if index ≥ r.results.size then do
       let (res, core) ← c.generate r.core r.results
       pure ({ r with results := res, core := core, index := 0, halfUsed := false }, 0)
-    else pure (r, index)
+    else pure (r, index))
   let shift ← mulC 32 r.halfUsed.toNat           -- `32 * (self.half_used as usize)`
   let r := { r with halfUsed := !r.halfUsed }
   let index' ← addC r.index r.halfUsed.toNat     -- `self.index += self.half_used as usize`
@@ -171,10 +171,10 @@ def nextU32 (c : BlockCoreC σ 64) (r : BlockRng64 σ) : Except Panic (U32 × Bl
 
 def nextU64 (c : BlockCoreC σ 64) (r : BlockRng64 σ) : Except Panic (U64 × BlockRng64 σ) := do
   let r ←
-    if r.index ≥ r.results.size then do
+    (if r.index ≥ r.results.size then do
       let (res, core) ← c.generate r.core r.results
       pure { r with results := res, core := core, index := 0 }
-    else pure r
+    else pure r)
   let value ← rdC r.results r.index              -- `self.results.as_ref()[self.index]`
   let index ← addC r.index 1                     -- `self.index += 1`
   pure (value, { r with index := index, halfUsed := false })
@@ -185,10 +185,10 @@ def fillLoop (c : BlockCoreC σ 64) (n : Nat) :
   | fuel + 1, readLen, acc, r =>
     if readLen < n then do
       let r ←
-        if r.index ≥ r.results.size then do
+        (if r.index ≥ r.results.size then do
           let (res, core) ← c.generate r.core r.results
           pure { r with results := res, core := core, index := 0 }
-        else pure r
+        else pure r)
       sliceFromC r.results.size r.index
       sliceFromC n readLen
       let (consumed, filled, bytes) ←
